@@ -16,6 +16,12 @@
 // short counts / errors (`passc l <answers>`); `cap s` shrinks every signal pipe to one page (1024 numbers) at creation;
 // `burst g n` raises n times without a pass.  Signal ids 6..11 = SIGRTMAX, 65, INT_MAX, 0, -3, 32 (all but the first invalid).
 // Callback scripts act on events of ANY loop (the call is made on the thread of the loop that runs the callback).
+// Round 5: `sa g k f m`: f = bit set over SA_RESTART, SA_NODEFER, SA_RESETHAND, SA_ONSTACK, SA_NOCLDSTOP, SA_NOCLDWAIT (1..32), m = the
+// 64-bit kernel sa_mask (decimal, bit k = signal k+1, written into the sigset_t word directly); dispositions are printed with every
+// flag bit and the whole mask.  The sentinel handlers record what they see (`M env=`: blocked signals, alternate stack): the kernel
+// semantics of SA_NODEFER / sa_mask / SA_ONSTACK of the INSTALLED disposition (tbox's own while chained).  `initd e g m` = the
+// initializer_list overload with the same signal twice.  `lost l` destroys loop l WITH its subscriptions (observation; terminal:
+// only deliveries are accepted afterwards, the orphaned events are leaked, never touched).
 #include "vh.h"
 #include <dlfcn.h>
 #include <fcntl.h>
@@ -162,7 +168,14 @@ static const char *errname(int e) { return e == 0 ? "ok" : e == EAGAIN ? "EAGAIN
 // ---- sentinel handlers (async-signal-safe: they only store into a preallocated array)
 static volatile sig_atomic_t g_ncalls = 0;
 static volatile int g_call_h[256], g_call_g[256];
-static void note_call(int h, int signo) { int n = g_ncalls; if (n < 256) { g_call_h[n] = h; g_call_g[n] = signo; g_ncalls = n + 1; } }
+static volatile unsigned long g_env_seen = 0; static volatile int g_env_st = 0;
+static void note_call(int h, int signo) {
+    int n = g_ncalls; if (n < 256) { g_call_h[n] = h; g_call_g[n] = signo; g_ncalls = n + 1; }
+    sigset_t m; sigemptyset(&m);
+    if (r_sigprocmask) r_sigprocmask(SIG_SETMASK, nullptr, &m);
+    g_env_seen = m.__val[0];
+    stack_t st; memset(&st, 0, sizeof st); sigaltstack(nullptr, &st); g_env_st = (st.ss_flags & SS_ONSTACK) ? 1 : 0;
+}
 template <int K> static void hfn(int signo) { note_call(K, signo); }
 // the three-argument form must receive the kernel's siginfo and context (chained call passes them on): else id + 50
 template <int K> static void afn(int signo, siginfo_t *si, void *ctx) { note_call((si != nullptr && si->si_signo == signo && ctx != nullptr) ? K : K + 50, signo); }
@@ -205,6 +218,8 @@ static std::string engine = "epoll";
 struct CbRec { size_t ev; int sig; bool en; };
 struct Act { char kind; size_t j; std::set<int> sigs; bool oneshot; };
 static std::vector<SignalEvent *> objs;
+static std::vector<bool> orphan;      // the event's loop was destroyed under it: never touched again (leaked)
+static bool lost_flag = false;
 static std::vector<int> obj_loop;
 static std::vector<std::vector<Act>> scripts;
 static std::vector<CbRec> cbs;
@@ -219,20 +234,16 @@ static std::string disp_of(int g) {
     if (cur.sa_handler == SIG_DFL) k = "d";
     else if (cur.sa_handler == SIG_IGN) k = "i";
     else for (int h = 0; h < kNH; ++h) if (p == (void *)kH[h] || p == (void *)kA[h]) k = "h" + std::to_string(h);
-    unsigned long f = (unsigned long)cur.sa_flags & ~(unsigned long)SA_SIGINFO & ~0x04000000UL /*SA_RESTORER*/;
+    // sa_flags is an int and SA_RESETHAND is its sign bit: take the 32 bits, unsigned
+    unsigned long f = (unsigned long)(unsigned int)cur.sa_flags & ~(unsigned long)SA_SIGINFO & ~0x04000000UL /*SA_RESTORER*/;
     unsigned long enc = 0;
-    if (f & SA_RESTART) { enc |= 1; f &= ~(unsigned long)SA_RESTART; }
-    if (f & SA_NODEFER) { enc |= 2; f &= ~(unsigned long)SA_NODEFER; }
+    static const unsigned long kFlag[6] = {(unsigned long)SA_RESTART, (unsigned long)SA_NODEFER, (unsigned long)(unsigned int)SA_RESETHAND,
+                                           (unsigned long)SA_ONSTACK, (unsigned long)SA_NOCLDSTOP, (unsigned long)SA_NOCLDWAIT};
+    for (int b = 0; b < 6; ++b) if (f & kFlag[b]) { enc |= 1ul << b; f &= ~kFlag[b]; }
     std::string fs = std::to_string(enc);
     if (f) { char b[32]; snprintf(b, sizeof b, "+%lx", f); fs += b; }
-    unsigned mask = 0; bool other = false;
-    for (int sgn = 1; sgn < 65; ++sgn) {
-        if (sigismember(&cur.sa_mask, sgn) != 1) continue;
-        bool known = false;
-        for (int b = 0; b < 4; ++b) if (kSig[kMaskId[b]] == sgn) { mask |= 1u << b; known = true; }
-        if (!known) other = true;
-    }
-    return k + ":" + (si ? "1" : "0") + ":" + fs + ":" + std::to_string(mask) + (other ? "+" : "");
+    // the kernel set has 64 bits = the first word; glibc copies sizeof(sigset_t) from its on-stack kernel struct, the rest is garbage
+    return k + ":" + (si ? "1" : "0") + ":" + fs + ":" + std::to_string((unsigned long)cur.sa_mask.__val[0]);
 }
 
 static std::string show() {
@@ -248,8 +259,8 @@ static void make_loops() { for (int l = 0; l < kNLoop; ++l) loops[l] = Loop::New
 
 static void reset_all() {
     for (size_t e = 0; e < objs.size(); ++e)
-        if (objs[e]) { SignalEvent *o = objs[e]; workers[obj_loop[e]].run([o] { delete o; }); objs[e] = nullptr; }
-    objs.clear(); obj_loop.clear(); scripts.clear(); cbs.clear(); thr_bad = false;
+        if (objs[e] && !orphan[e]) { SignalEvent *o = objs[e]; workers[obj_loop[e]].run([o] { delete o; }); objs[e] = nullptr; }
+    objs.clear(); obj_loop.clear(); orphan.clear(); lost_flag = false; scripts.clear(); cbs.clear(); thr_bad = false;
     for (int l = 0; l < kNLoop; ++l) { delete loops[l]; loops[l] = nullptr; }
     for (int g = 0; g < kNShow; ++g) {
         struct sigaction sa; memset(&sa, 0, sizeof(sa)); sa.sa_handler = SIG_DFL; sigemptyset(&sa.sa_mask);
@@ -362,6 +373,8 @@ static void run_case(const std::vector<std::string> &lines) {
     kSig[0] = SIGKILL; kSig[1] = SIGUSR1; kSig[2] = SIGUSR2; kSig[3] = SIGSTOP; kSig[4] = SIGRTMIN + 1; kSig[5] = SIGRTMIN + 2;
     kSig[6] = SIGRTMAX; kSig[7] = 65; kSig[8] = INT_MAX; kSig[9] = 0; kSig[10] = -3; kSig[11] = 32;
     resolve();
+    static char altstk[1 << 16];      // SA_ONSTACK of a user disposition must have somewhere to go (main thread: raise() runs here)
+    stack_t ss; memset(&ss, 0, sizeof ss); ss.ss_sp = altstk; ss.ss_size = sizeof altstk; sigaltstack(&ss, nullptr);
     for (int l = 0; l < kNLoop; ++l) workers[l].id = l;
     for (auto &w : workers) w.start();
     make_loops();
@@ -370,8 +383,9 @@ static void run_case(const std::vector<std::string> &lines) {
         auto w = vh::words(line);
         if (w.empty()) continue;
         if (w[0] == "case") { reset_all(); std::cout << line << "\n"; continue; }
-        size_t l, e, g, f, m;
+        size_t l, e, g, f; uint64_t m64 = 0;
         g_sys.clear(); g_cs_bad = false;
+        if (lost_flag && w[0] != "raise" && w[0] != "raisew" && w[0] != "burst") { std::cout << "bad-op\n"; continue; }
         if (w[0] == "eng" && w.size() == 2 && (w[1] == "e" || w[1] == "s")) {
             if (objs.empty()) {   // engine can only be chosen before the first event of the case
                 for (int i = 0; i < kNLoop; ++i) { delete loops[i]; loops[i] = nullptr; }
@@ -385,7 +399,7 @@ static void run_case(const std::vector<std::string> &lines) {
             if (!parse_script(w[2], sc, id)) { std::cout << "bad-op\n"; continue; }
             SignalEvent *ev = nullptr;
             workers[l].run([&] { ev = loops[l]->newSignalEvent("verif"); });
-            objs.push_back(ev); obj_loop.push_back((int)l); scripts.push_back(sc);
+            objs.push_back(ev); obj_loop.push_back((int)l); scripts.push_back(sc); orphan.push_back(false);
             int li = (int)l;
             ev->setCallback([id, li](int signo) {
                 if (std::this_thread::get_id() != workers[li].tid) thr_bad = true;
@@ -398,15 +412,24 @@ static void run_case(const std::vector<std::string> &lines) {
             if (!objs.empty()) { std::cout << "bad-op\n"; continue; }
             g_small = (w[1] == "s");
             std::cout << "P cap\n";
-        } else if ((w[0] == "init1" || w[0] == "initl") && w.size() == 4 && idx(w[1], objs.size(), e)) {
+        } else if (w[0] == "lost" && w.size() == 2 && idx(w[1], kNLoop, l)) {
+            // ~Loop with subscribed events: what the destructor does to the signal bookkeeping (nothing)
+            Loop *lp = loops[l]; loops[l] = nullptr;
+            workers[l].run([lp] { delete lp; });
+            for (size_t i = 0; i < objs.size(); ++i) if (objs[i] && obj_loop[i] == (int)l) orphan[i] = true;
+            lost_flag = true;
+            std::cout << "P lost " << show() << "\n";
+            std::cout << "M sys=" << show_sys() << "\n";
+        } else if ((w[0] == "init1" || w[0] == "initl" || w[0] == "initd") && w.size() == 4 && idx(w[1], objs.size(), e)) {
             // the int overload (one signal) and the initializer_list overload: both ADD to the event's set
             std::set<int> ss;
-            if (!parse_sigs(w[2], ss) || (w[3] != "o" && w[3] != "p") || (w[0] == "init1" && ss.size() != 1)) { std::cout << "bad-op\n"; continue; }
+            if (!parse_sigs(w[2], ss) || (w[3] != "o" && w[3] != "p") || ((w[0] == "init1" || w[0] == "initd") && ss.size() != 1)) { std::cout << "bad-op\n"; continue; }
             SignalEvent *o = objs[e];
             bool r = false;
             Event::Mode md = w[3] == "o" ? Event::Mode::kOneshot : Event::Mode::kPersist;
             if (o) workers[obj_loop[e]].run([&] {
                 if (w[0] == "init1") r = o->initialize(*ss.begin(), md);
+                else if (w[0] == "initd") r = o->initialize({*ss.begin(), *ss.begin()}, md);     // the same signal twice
                 else if (ss.size() == 1) r = o->initialize({*ss.begin()}, md);
                 else if (ss.size() == 2) r = o->initialize({*ss.rbegin(), *ss.begin()}, md);
                 else { auto it = ss.begin(); int a = *it++, b = *it++, c = *it; r = o->initialize({b, a, c}, md); }
@@ -435,7 +458,7 @@ static void run_case(const std::vector<std::string> &lines) {
             }
             std::cout << "P ret=" << (r ? 1 : 0) << " " << show() << "\n";
             std::cout << "M sys=" << show_sys() << "\n";
-        } else if (w[0] == "sa" && w.size() == 5 && idx(w[1], kNSig, g) && w[2].size() >= 1 && idx(w[3], 4, f) && idx(w[4], 16, m)) {
+        } else if (w[0] == "sa" && w.size() == 5 && idx(w[1], kNSig, g) && w[2].size() >= 1 && idx(w[3], 64, f) && vh::to_u64(w[4], m64)) {
             struct sigaction sa; memset(&sa, 0, sizeof(sa)); sigemptyset(&sa.sa_mask);
             size_t h = 0; bool ok = true;
             if (w[2] == "d") sa.sa_handler = SIG_DFL;
@@ -446,7 +469,11 @@ static void run_case(const std::vector<std::string> &lines) {
             if (!ok) { std::cout << "bad-op\n"; continue; }
             if (f & 1) sa.sa_flags |= SA_RESTART;
             if (f & 2) sa.sa_flags |= SA_NODEFER;
-            for (int b = 0; b < 4; ++b) if (m & (1u << b)) sigaddset(&sa.sa_mask, kSig[kMaskId[b]]);
+            if (f & 4) sa.sa_flags |= (int)SA_RESETHAND;
+            if (f & 8) sa.sa_flags |= SA_ONSTACK;
+            if (f & 16) sa.sa_flags |= SA_NOCLDSTOP;
+            if (f & 32) sa.sa_flags |= SA_NOCLDWAIT;
+            sa.sa_mask.__val[0] = (unsigned long)m64;      // the kernel's 64-bit set, as given (sigaddset refuses 32/33)
             // the user does not replace the library's handler while it is installed (SIGKILL/SIGSTOP: EINVAL)
             bool r = disp_of((int)g)[0] != 'T';
             if (r) r = sigaction(kSig[g], &sa, nullptr) == 0;
@@ -496,6 +523,8 @@ static void run_case(const std::vector<std::string> &lines) {
             if (after > 200) g_ncalls = 0;
             std::cout << "P raise " << outcome << " calls=" << calls << " " << show() << (g_would_block ? " HANDLER-WOULD-BLOCK" : "") << "\n";
             std::cout << "M wr=" << wr << "\n";
+            if (after > before) std::cout << "M env=" << (unsigned long)g_env_seen << ":" << g_env_st << "\n";
+            else std::cout << "M env=-\n";
         } else if (((w[0] == "pass" && w.size() == 2) || (w[0] == "passc" && w.size() == 3)) && idx(w[1], kNLoop, l)) {
             g_rq.clear(); g_rq_pos = 0;
             if (w[0] == "passc") {
